@@ -316,6 +316,15 @@ func runC10(o *hx.Out, r *hx.Rand, thorough bool) {
 				}
 				// mutating either side's metadata must not be visible on the other
 				s.isolated = true
+				// nor is the handler's peer the caller's variable (the one given to the grpc.Peer option): the caller
+				// may reuse that variable while the handler still runs
+				if hp, ok := peer.FromContext(hctx); ok && hp.Addr != nil {
+					before := hp.Addr.Network() + "/" + hp.Addr.String()
+					c10CallerPeer = peer.Peer{Addr: otherPeerAddr{}}
+					if hp2, ok := peer.FromContext(hctx); !ok || hp2.Addr == nil || hp2.Addr.Network()+"/"+hp2.Addr.String() != before || hp == &c10CallerPeer {
+						s.isolated = false
+					}
+				}
 				if okIn {
 					before := mdTerm(in)
 					for k := range callerMD {
@@ -350,6 +359,14 @@ func runC10(o *hx.Out, r *hx.Rand, thorough bool) {
 			})
 		})
 		desc := map[string]interface{}{"caller_context": e.describe(), "method": method, "stream": stream}
+		if ran && stream && it%3 == 0 {
+			// the request metadata is the caller's as it was when NewStream was called: a caller that changes
+			// its MD right after NewStream returned (before the server goroutine has run) is not seen
+			if bad := mdSnapshotProbe(); bad != "" {
+				s.isolated = false
+				desc["metadata_changed_after_NewStream_seen_by_handler"] = bad
+			}
+		}
 		if !ran {
 			// a cancelled caller context may end the call before the handler starts: nothing to compare
 			desc["handler_ran"] = false
@@ -386,8 +403,12 @@ func (m mapCreds) GetRequestMetadata(context.Context, ...string) (map[string]str
 }
 func (mapCreds) RequireTransportSecurity() bool { return false }
 
+// the caller's variable for the grpc.Peer call option (what the library writes there is the caller's copy)
+var c10CallerPeer peer.Peer
+
 func callInproc(ch *inprocgrpc.Channel, ctx context.Context, method string, stream bool, creds map[string]string) {
-	var opts []grpc.CallOption
+	c10CallerPeer = peer.Peer{}
+	opts := []grpc.CallOption{grpc.Peer(&c10CallerPeer)}
 	if creds != nil {
 		opts = append(opts, grpc.PerRPCCredentials(mapCreds(creds)))
 	}
@@ -409,4 +430,38 @@ func callInproc(ch *inprocgrpc.Channel, ctx context.Context, method string, stre
 			return
 		}
 	}
+}
+
+// mdSnapshotProbe: on one processor the server goroutine of a new stream has not run when NewStream returns
+func mdSnapshotProbe() string {
+	prev := runtime.GOMAXPROCS(1)
+	defer runtime.GOMAXPROCS(prev)
+	saw := make(chan string, 1)
+	c := &inprocgrpc.Channel{}
+	c.RegisterService(hx.Desc(hx.SvcName), &hx.Svc{Stream: func(kind string, ss grpc.ServerStream) error {
+		in, _ := metadata.FromIncomingContext(ss.Context())
+		saw <- strings.Join(in.Get("k"), ",")
+		return nil
+	}})
+	for i := 0; i < 8; i++ {
+		md := metadata.Pairs("k", fmt.Sprint("value-", i))
+		cs, err := c.NewStream(metadata.NewOutgoingContext(context.Background(), md), hx.StreamDescOf("BD"), "/verif.Svc/BD")
+		md.Set("k", "changed after NewStream returned")
+		if err != nil {
+			return "NewStream: " + err.Error()
+		}
+		cs.CloseSend()
+		var got string
+		select {
+		case got = <-saw:
+		case <-time.After(2 * time.Second):
+			got = "(handler did not run)"
+		}
+		cs.RecvMsg(&hx.Msg{})
+		runtime.KeepAlive(cs)
+		if got != fmt.Sprint("value-", i) {
+			return got
+		}
+	}
+	return ""
 }
